@@ -370,8 +370,8 @@ func expandSchemaRef(target Schema, parentRefs []string, resolver *schemaLoader,
 		return nil, err
 	}
 
-	if t == nil {
-		// guard for when continuing on error
+	if t == nil || err != nil {
+		// guard for when continuing on error: the $ref is left as is
 		return &target, nil
 	}
 
